@@ -36,8 +36,9 @@ VARIABLES tid, l,
   overd,   \* [Who -> BOOLEAN]  this sender sent a compressed message larger than the peer's decompression limit
   failed1009, \* [Who -> BOOLEAN]  the peer of this sender failed the connection with 1009 because of such a message
   wnf,     \* [Who -> Nat]  data frames written so far for the message being framed
-  wcounts  \* [Who -> Seq(Nat)]  number of data frames each completely framed message was written in
-tvars == <<tid, l, opt, acc, wfs, wdone, wsum, dl, krun, poison, overd, failed1009, wnf, wcounts>>
+  wcounts, \* [Who -> Seq(Nat)]  number of data frames each completely framed message was written in
+  wcmp     \* [Who -> BOOLEAN]  the message being framed travels compressed (its first frame carried RSV1)
+tvars == <<tid, l, opt, acc, wfs, wdone, wsum, dl, krun, poison, overd, failed1009, wnf, wcounts, wcmp>>
 
 (***************************************************************************)
 (* Deviation actions for recorded (not repaired) defects, DESIGN 3.5.      *)
@@ -59,13 +60,13 @@ TInit == /\ tid \in 1..N /\ l = 1
          /\ wdone = [w \in Who |-> 0] /\ wsum = [w \in Who |-> 0] /\ dl = [w \in Who |-> 0]
          /\ krun = [w \in Who |-> [key |-> <<>>, n |-> 0, bad |-> FALSE]]
          /\ poison = [w \in Who |-> FALSE] /\ overd = [w \in Who |-> FALSE] /\ failed1009 = [w \in Who |-> FALSE]
-         /\ wnf = [w \in Who |-> 0] /\ wcounts = [w \in Who |-> <<>>]
+         /\ wnf = [w \in Who |-> 0] /\ wcounts = [w \in Who |-> <<>>] /\ wcmp = [w \in Who |-> FALSE]
 
 TOpen == /\ IsEvent("open") /\ l = 1
          /\ opt' = [compress |-> Ev.compress, limit |-> [w \in Who |-> Ev.limit[w]], mask |-> [w \in Who |-> Ev.mask[w]],
                     dlimit |-> [w \in Who |-> Ev.dlimit[w]],   \* decompression size limit of receiver w (0 = none)
                     closer |-> Ev.closer]   \* "" or the end that will finish the scenario with sendClose() right behind queued sends
-         /\ UNCHANGED <<acc, wfs, wdone, wsum, dl, krun, poison, overd, failed1009, wnf, wcounts>>
+         /\ UNCHANGED <<acc, wfs, wdone, wsum, dl, krun, poison, overd, failed1009, wnf, wcounts, wcmp>>
 
 \* ---- send API: accepted unless over the sender's message limit (sendMessage only); nothing else may be raised
 TSend ==
@@ -83,7 +84,7 @@ TSend ==
         /\ poison' = IF Ev.exc # "" /\ cmpd THEN [poison EXCEPT ![w] = TRUE] ELSE poison
         /\ overd' = IF Ev.exc = "" /\ cmpd /\ opt.dlimit[Other(w)] > 0 /\ Ev.len > opt.dlimit[Other(w)]
                     THEN [overd EXCEPT ![w] = TRUE] ELSE overd
-  /\ UNCHANGED <<opt, wfs, wdone, wsum, dl, krun, failed1009, wnf, wcounts>>
+  /\ UNCHANGED <<opt, wfs, wdone, wsum, dl, krun, failed1009, wnf, wcounts, wcmp>>
 
 \* ---- one written frame: st = [fs, done, sum, nf, counts]  (nf: data frames of the message being framed; counts: per completed message)
 WriteFrame(w, st, f) ==
@@ -100,10 +101,13 @@ WriteFrame(w, st, f) ==
      ELSE IF st.done >= Len(acc[w]) THEN [st EXCEPT !.fs = Bad]          \* a data frame nobody asked to send
      ELSE LET m == acc[w][st.done + 1]
               first == ~st.fs.inside
-              cmpd == opt.compress /\ ~m.dnc
+              \* with an extension negotiated a message not flagged do-not-compress may travel compressed (RSV1 on its first
+              \* frame, and only there) or not - the sender's choice; a flagged one, or any without the extension, must not
+              may == opt.compress /\ ~m.dnc
+              cmpd == IF first THEN may /\ Rsv(h) = 4 ELSE st.cmp
               okData == /\ okMask(m)
                         /\ first => (Opcode(h) = (IF m.bin THEN 2 ELSE 1))
-                        /\ Rsv(h) = (IF first /\ cmpd THEN 4 ELSE 0)     \* RSV1 exactly on the first frame of a compressed message
+                        /\ Rsv(h) = (IF first /\ cmpd THEN 4 ELSE 0)
               nfs == Framing(st.fs, [mid |-> st.done + 1, op |-> Opcode(h), fin |-> Fin(h), len |-> f.plen, ctl |-> FALSE])
               sum == st.sum + f.plen
           IN IF ~okData \/ nfs = Bad THEN [st EXCEPT !.fs = Bad]
@@ -111,8 +115,8 @@ WriteFrame(w, st, f) ==
              THEN IF ~cmpd /\ sum # m.len THEN [st EXCEPT !.fs = Bad]    \* fragments must add up to the message
                   ELSE IF opt.limit[w] > 0 /\ m.api = "msg" /\ sum > opt.limit[w]
                   THEN [st EXCEPT !.fs = Bad]                            \* an accepted message never exceeds the limit on the wire
-                  ELSE [st EXCEPT !.fs = nfs, !.done = st.done + 1, !.sum = 0, !.nf = 0, !.counts = Append(@, st.nf + 1)]
-             ELSE [st EXCEPT !.fs = nfs, !.sum = sum, !.nf = st.nf + 1]
+                  ELSE [st EXCEPT !.fs = nfs, !.done = st.done + 1, !.sum = 0, !.nf = 0, !.counts = Append(@, st.nf + 1), !.cmp = FALSE]
+             ELSE [st EXCEPT !.fs = nfs, !.sum = sum, !.nf = st.nf + 1, !.cmp = cmpd]
 
 \* "masked with a per-frame key": a fresh 32-bit key per frame.  Two equal consecutive keys happen by chance once in
 \* 2^32 frames; three in a row (2^-64) is taken as key reuse.
@@ -127,13 +131,14 @@ TWire ==
   /\ ~krun'[Ev.who].bad
   /\ LET w == Ev.who
          st == FoldLeft(LAMBDA s, f : WriteFrame(w, s, f),
-                        [fs |-> wfs[w], done |-> wdone[w], sum |-> wsum[w], nf |-> wnf[w], counts |-> wcounts[w]], Ev.frames)
+                        [fs |-> wfs[w], done |-> wdone[w], sum |-> wsum[w], nf |-> wnf[w], counts |-> wcounts[w], cmp |-> wcmp[w]], Ev.frames)
      IN /\ st.fs # Bad
         /\ wfs' = [wfs EXCEPT ![w] = st.fs]
         /\ wdone' = [wdone EXCEPT ![w] = st.done]
         /\ wsum' = [wsum EXCEPT ![w] = st.sum]
         /\ wnf' = [wnf EXCEPT ![w] = st.nf]
         /\ wcounts' = [wcounts EXCEPT ![w] = st.counts]
+        /\ wcmp' = [wcmp EXCEPT ![w] = st.cmp]
   /\ UNCHANGED <<opt, acc, dl, poison, overd, failed1009>>
 
 DevF16(w) == ("F16" \in Dev /\ poison[w]) \/ ("F10" \in Dev /\ overd[w])
@@ -159,38 +164,38 @@ TDeliver ==
           /\ Ev.nfb = wcounts[w][k]
           /\ Ev.fdsum = Ev.len
           /\ dl' = [dl EXCEPT ![w] = k]
-  /\ UNCHANGED <<opt, acc, wfs, wdone, wsum, krun, poison, overd, failed1009, wnf, wcounts>>
+  /\ UNCHANGED <<opt, acc, wfs, wdone, wsum, krun, poison, overd, failed1009, wnf, wcounts, wcmp>>
 
 \* the receiver may refuse an over-limit compressed message by failing the connection with 1009 (then nothing of that
 \* sender is delivered any more); it must never deliver it truncated
 TClosedLimit == /\ IsEvent("closed") /\ Ev.code = 1009
                 /\ \E w \in Who : overd[w] /\ failed1009' = [failed1009 EXCEPT ![w] = TRUE]
-                /\ UNCHANGED <<opt, acc, wfs, wdone, wsum, dl, krun, poison, overd, wnf, wcounts>>
+                /\ UNCHANGED <<opt, acc, wfs, wdone, wsum, dl, krun, poison, overd, wnf, wcounts, wcmp>>
 
 \* The scenario ends with a closing handshake: the closer calls sendClose() while messages it sent before still wait in its
 \* send queue.  Both ends are then told of a clean close - and TEnd still demands that everything accepted was written and
 \* delivered (the close frame is queued behind the data, and a closing connection keeps writing its queue).
 TLClose == /\ IsEvent("lclose") /\ Ev.who = opt.closer
-           /\ UNCHANGED <<opt, acc, wfs, wdone, wsum, dl, krun, poison, overd, failed1009, wnf, wcounts>>
+           /\ UNCHANGED <<opt, acc, wfs, wdone, wsum, dl, krun, poison, overd, failed1009, wnf, wcounts, wcmp>>
 TClosedClean == /\ IsEvent("closed") /\ opt.closer # "" /\ Ev.clean /\ Ev.code \in {0, 1000}     \* (0: the close frame carried no code)
-                /\ UNCHANGED <<opt, acc, wfs, wdone, wsum, dl, krun, poison, overd, failed1009, wnf, wcounts>>
+                /\ UNCHANGED <<opt, acc, wfs, wdone, wsum, dl, krun, poison, overd, failed1009, wnf, wcounts, wcmp>>
 
 TEnd == /\ IsEvent("end")
         \* (a connection lost to a recorded deviation or failed with 1009 ends with unsent / undelivered messages)
         /\ \/ DevF16("C") \/ DevF16("S") \/ failed1009["C"] \/ failed1009["S"]
            \/ \A w \in Who : wdone[w] = Len(acc[w]) /\ wfs[w] = Ground /\ dl[w] = Len(acc[w])
-        /\ UNCHANGED <<opt, acc, wfs, wdone, wsum, dl, krun, poison, overd, failed1009, wnf, wcounts>>
+        /\ UNCHANGED <<opt, acc, wfs, wdone, wsum, dl, krun, poison, overd, failed1009, wnf, wcounts, wcmp>>
 
 \* an exception escaping data_received / the connection being closed is never part of a correct execution
 TDevEscape == /\ IsEvent("escape") /\ DevF16(Other(Ev.at))
-              /\ UNCHANGED <<opt, acc, wfs, wdone, wsum, dl, krun, poison, overd, failed1009, wnf, wcounts>>
+              /\ UNCHANGED <<opt, acc, wfs, wdone, wsum, dl, krun, poison, overd, failed1009, wnf, wcounts, wcmp>>
 TDevClosed == /\ IsEvent("closed") /\ (DevF16("C") \/ DevF16("S"))
-              /\ UNCHANGED <<opt, acc, wfs, wdone, wsum, dl, krun, poison, overd, failed1009, wnf, wcounts>>
+              /\ UNCHANGED <<opt, acc, wfs, wdone, wsum, dl, krun, poison, overd, failed1009, wnf, wcounts, wcmp>>
 TDevSend == /\ IsEvent("send") /\ Ev.exc = "Disconnected" /\ (DevF16("C") \/ DevF16("S"))   \* the connection was lost to the deviation
-            /\ UNCHANGED <<opt, acc, wfs, wdone, wsum, dl, krun, poison, overd, failed1009, wnf, wcounts>>
+            /\ UNCHANGED <<opt, acc, wfs, wdone, wsum, dl, krun, poison, overd, failed1009, wnf, wcounts, wcmp>>
 TDevDeliver == /\ IsEvent("deliver") /\ DevF16(Other(Ev.to)) /\ ~Ev.same
                /\ dl' = [dl EXCEPT ![Other(Ev.to)] = IF @ < wdone[Other(Ev.to)] THEN @ + 1 ELSE @]
-               /\ UNCHANGED <<opt, acc, wfs, wdone, wsum, krun, poison, overd, failed1009, wnf, wcounts>>
+               /\ UNCHANGED <<opt, acc, wfs, wdone, wsum, krun, poison, overd, failed1009, wnf, wcounts, wcmp>>
 
 TNext == (TLClose \/ TClosedClean \/ TOpen \/ TSend \/ TWire \/ TDeliver \/ TEnd \/ TClosedLimit \/ TDevEscape \/ TDevClosed \/ TDevDeliver \/ TDevSend) /\ UNCHANGED vars
 TraceSpec == TInit /\ Init /\ [][TNext]_<<tvars, vars>>
